@@ -13,6 +13,18 @@ def rep (n : Nat) (s : List Char) : List Char := Id.run do
 def deepDoc (kind : String) (depth : Nat) (closed : Bool) : List Char :=
   if kind = "arr" then
     rep depth ['['] ++ (if closed then rep depth [']'] else [])
+  else if kind = "tail" then
+    rep depth ['['] ++ rep depth [']'] ++ (if closed then [] else ['x'])
+  else if kind = "mid" then Id.run do
+    let mut out : Array Char := #['[', '1', ',']
+    for i in [0:depth] do
+      for c in (if i % 2 = 0 then "[" else "{\"a\":").toList do out := out.push c
+    for c in "null".toList do out := out.push c
+    for j in [0:depth] do
+      let i := depth - 1 - j
+      out := out.push (if i % 2 = 0 then ']' else '}')
+    for c in (if closed then ",2]" else ",}").toList do out := out.push c
+    return out.toList
   else if kind = "obj" then
     rep depth "{\"k\":".toList ++ (if closed then '0' :: rep depth ['}'] else [])
   else if kind = "ws" then Id.run do
